@@ -17,7 +17,6 @@ use vmodel::engine::{install_panic_hook, guarded, Failure, ShardCtx, ShardResult
 
 mod checks;
 
-pub const VERIF: &str = "/verif";
 
 fn usage() -> ExitCode {
     eprintln!("usage: vcheck <ID> quick|thorough | vcheck <ID> replay <path>");
@@ -40,7 +39,7 @@ fn main() -> ExitCode {
         for id in ["C09", "C11", "C12"] {
             let c = checks::find(id).unwrap();
             if let Some(p) = c.prepare {
-                match p(Tier::Quick, 0, Path::new("/verif/harness/run")) {
+                match p(Tier::Quick, 0, &vmodel::root().join("harness/run")) {
                     Ok(v) => println!("warm {}: {}", id, v),
                     Err(checks::PrepError::Inconclusive(e)) => println!("warm {}: inconclusive: {}", id, e),
                     Err(checks::PrepError::Violation(f)) => println!("warm {}: {}", id, f.observed),
@@ -171,7 +170,7 @@ fn run_one(path: &Path) -> Result<(), String> {
 }
 
 fn write_replay(id: &str, tier: Tier, seed: u64, f: &Failure) -> PathBuf {
-    let dir = Path::new(VERIF).join("replays");
+    let dir = vmodel::root().join("replays");
     std::fs::create_dir_all(&dir).ok();
     let body = json!({
         "property": id, "check": f.check, "seed": seed, "tier": tier.name(),
@@ -224,7 +223,7 @@ struct Known {
 }
 
 fn load_known() -> Known {
-    let p = Path::new(VERIF).join("known_findings.json");
+    let p = vmodel::root().join("known_findings.json");
     let v: Value = std::fs::read(&p)
         .ok()
         .and_then(|b| serde_json::from_slice(&b).ok())
@@ -264,10 +263,10 @@ fn parent(id: &str, tier: Tier) -> ExitCode {
     let seed = seed_from_env();
     let check = checks::find(id).unwrap();
     let n = if check.single_shard { 1 } else { jobs() };
-    let dir = Path::new(VERIF).join("harness/run").join(format!("{}-{}", id, tier.name()));
+    let dir = vmodel::root().join("harness/run").join(format!("{}-{}", id, tier.name()));
     let _ = std::fs::remove_dir_all(&dir);
     std::fs::create_dir_all(&dir).unwrap();
-    let evidence_path = Path::new(VERIF).join("evidence").join(format!("{}.json", id));
+    let evidence_path = vmodel::root().join("evidence").join(format!("{}.json", id));
     std::fs::create_dir_all(evidence_path.parent().unwrap()).ok();
     let _ = std::fs::remove_file(&evidence_path);
     let known = load_known();
@@ -277,7 +276,7 @@ fn parent(id: &str, tier: Tier) -> ExitCode {
 
     // 1. regression tier: every saved reproduction of a defect found earlier
     let mut regress_n = 0;
-    let rdir = Path::new(VERIF).join("regress").join(id);
+    let rdir = vmodel::root().join("regress").join(id);
     if let Ok(rd) = std::fs::read_dir(&rdir) {
         let mut files: Vec<PathBuf> = rd.filter_map(|e| e.ok().map(|e| e.path())).filter(|p| p.extension().map(|e| e == "json").unwrap_or(false)).collect();
         files.sort();
